@@ -137,7 +137,7 @@ func (qr *queryResult) mergeBatch(
 	var lastVersion int64
 	var lastSid common.SeriesID
 
-	for qr.Len() > 0 && b.RowCount() < mergeBatchMaxRows {
+	for qr.Len() > 0 {
 		topBC := qr.data[0]
 		// Series boundary: stop and let the caller call again for the next series.
 		if lastSid != 0 && topBC.bm.seriesID != lastSid {
@@ -145,8 +145,14 @@ func (qr *queryResult) mergeBatch(
 		}
 		lastSid = topBC.bm.seriesID
 
-		if b.RowCount() > 0 &&
-			topBC.timestamps[topBC.idx] == b.Timestamps[len(b.Timestamps)-1] {
+		duplicated := b.RowCount() > 0 &&
+			topBC.timestamps[topBC.idx] == b.Timestamps[len(b.Timestamps)-1]
+		// A full batch still has to absorb the remaining versions of its last row;
+		// otherwise they would open the next batch as a second point with the same timestamp.
+		if b.RowCount() >= mergeBatchMaxRows && !duplicated {
+			break
+		}
+		if duplicated {
 			// Duplicate timestamp within the same series: keep the higher version.
 			if topBC.versions[topBC.idx] > lastVersion {
 				topBC.replaceInBatch(b, schema, storedIndexValue)
